@@ -38,7 +38,7 @@ func (check) Assumptions() []string {
 
 func (check) BudgetSeconds(tier string) int {
 	if tier == "thorough" {
-		return 1800
+		return 3000 // histories of length 4 take ~20 min alone on 16 cores, ~28 min next to other work
 	}
 	return 200
 }
